@@ -16,6 +16,8 @@ from nutree import Tree, TypedTree
 
 ID = "C12"
 LEVEL = "exploration"
+TECHNIQUE = 'property-based testing with an independent decoder and encoder of the documented layout; literal guide documents; malformed and byte-damaged documents'
+LEVEL_TEXT = 'exploration: writer output is decoded by an independent implementation of the documented layout, reader input is produced by an independent encoder, so a change made consistently to writer and reader is still caught'
 RULE = (
     "writer part: (profile, tree spec, storage configuration) as in C05; the written JSON (decompressed with zipfile "
     "directly) is decoded by an independent decoder of the documented layout: header ($generator nutree/..., "
